@@ -30,6 +30,7 @@ CATALOGUE = [
     dict(name="GF19^2", p=19, d=2, mc=(1, 0), tier="thorough"),
     # quadratic with other moduli (incl. a non-zero linear and a negative raw coefficient)
     dict(name="GF5^2a", p=5, d=2, mc=(-2, 0)), dict(name="GF5^2b", p=5, d=2, mc=(2, 1)),
+    dict(name="GF5^2c", p=5, d=2, mc=(1, 1)),          # equal non-zero modulus coefficients
     # other degrees through the generic FQP class
     dict(name="GF2^3", p=2, d=3, mc=(1, 1, 0)), dict(name="GF3^3", p=3, d=3, mc=(1, 2, 0)),
     dict(name="GF2^4", p=2, d=4, mc=(1, 0, 0, 1)), dict(name="GF5^3", p=5, d=3, mc=(1, 2, 0)),
@@ -39,7 +40,7 @@ CATALOGUE = [
     dict(name="GF2^12s", p=2, d=12, mc=(1, 0, 0, 1, 0, 0, 0, 0, 0, 0, 0, 0)),
     dict(name="GF2^12d", tier="thorough", p=2, d=12, mc=(1, 0, 1, 0, 0, 1, 1, 0, 1, 0, 0, 1)),
     dict(name="GF3^12s", p=3, d=12, mc=(2, 0, 1, 0, 0, 0, 0, 0, 0, 0, 0, 0)),
-    dict(name="GF3^12d", p=3, d=12, mc=(1, 1, 1, 2, 0, 1, 0, 1, 2, 2, 2, 2), tier="thorough"),
+    dict(name="GF3^12d", p=3, d=12, mc=(1, 1, 1, 2, 0, 1, 0, 1, 2, 2, 2, 2)),      # dense, repeated coefficients
     dict(name="GF5^12", tier="thorough", p=5, d=12, mc=(4, 1, 0, 0, 0, 0, 0, 0, 0, 0, 0, 0)),
     dict(name="GF7^12bn", p=7, d=12, mc=(82 % 7, 0, 0, 0, 0, 0, -18 % 7, 0, 0, 0, 0, 0)),
     dict(name="GF7^12d", tier="thorough", p=7, d=12, mc=(3, 4, 0, 6, 1, 5, 1, 4, 4, 1, 6, 0)),
@@ -167,6 +168,20 @@ def _rows_job(job):
                 r["r"] = pr(_safe(lambda: 1 / x))
             else:
                 r["r"] = pr(_safe(lambda: x.inv()))
+        elif op in ("invq", "mulq", "divq"):
+            # elements built from FQ-OBJECT coefficients (the classes accept IntOrFQ); same laws, same rows
+            fq1 = toy.field_classes(p, 1, (0,), fam)
+            mkq = lambda c: cls([fq1(v) for v in c])  # noqa: E731
+            r["op"], r["via"] = op[:-1], "fq-object coefficients"
+            if op == "invq":
+                r["a"] = o
+                x = mkq(o)
+                r["r"] = pr(_safe(lambda: x.inv()))
+            else:
+                a, b = o
+                r["a"], r["b"] = a, b
+                x, y = mkq(a), mkq(b)
+                r["r"] = pr(_safe((lambda: x * y) if op == "mulq" else (lambda: x / y)))
         elif op in ("sgn0", "sgn0q"):
             r["a"] = o
             if op == "sgn0q":       # the same element built from FQ-object coefficients (the classes accept IntOrFQ)
@@ -256,6 +271,9 @@ def build_tables(tier: str, seed: int, families=("ref", "opt"), log=lambda *a: N
                 add("sgn0", el_un, 1, ex_un)
                 if d > 1:
                     add("sgn0q", el_un[:600])
+                    add("invq", el_un[:600])
+                    add("mulq", pairs[:300])
+                    add("divq", pairs[:300])
             add("pow", pow_ops)
             if ex_un and n <= (600 if quick else 5000):
                 add("pow", [(a, e) for a in el_un for e in (0, 1, 2, 3, n - 2, n - 1, n)])
